@@ -1,5 +1,6 @@
 import GoLevel.Proofs.ConcShort
 import GoLevel.Proofs.Key
+import GoLevel.Proofs.ConcDriver
 /-!
 # Property C05 — linearizability of writes and reads on a shared DB (and C03 at this level)
 
@@ -606,6 +607,209 @@ and a group is inserted into the buffer before its sequence number is published 
 readers are registered from their `rSeq` step to their release, which is what bounds `minSeq` of a compaction) -/
 theorem code_is_real : codeCfg = Cfg.real ∧ Gen.ordApplyBeforePublish = true ∧ Gen.ordPointReadsHoldSnapshot = true := by decide
 
+/-! ## 7. the snapshot list (`db.snapsList`, `db_snapshot.go`) -/
+
+/-- **`minSeq` returns the oldest live snapshot.**  Take any history of `acquireSnapshot` / `releaseSnapshot` calls as
+the DB can produce it (`Snaps.Legal`: every acquisition reads a `db.seq` at least as large as every one read before,
+every release gives back an acquisition that is still held): no call panics (neither "sequence number is not
+increasing" nor "negative element reference"), and afterwards `minSeq()` returns the minimum over all
+acquired-and-not-released sequence numbers — or `db.seq` if there is none. -/
+theorem minSeq_is_oldest_live (ops : List Snaps.Op) (h : Snaps.Legal 0 [] ops) (dbSeq : Nat) :
+    ∃ l, Snaps.run [] ops = some l ∧
+      (Snaps.liveRun [] ops = [] → Snaps.minSeq l dbSeq = dbSeq) ∧
+      (Snaps.liveRun [] ops ≠ [] → Snaps.minSeq l dbSeq ∈ Snaps.liveRun [] ops ∧
+        ∀ s ∈ Snaps.liveRun [] ops, Snaps.minSeq l dbSeq ≤ s) := by
+  obtain ⟨l, h1, h2⟩ := Snaps.run_legal ops [] [] 0 Snaps.rep_nil (by simp) h
+  exact ⟨l, h1, Snaps.rep_minSeq h2 dbSeq⟩
+
+/-- three acquisitions at 5, 5, 7 (the two at 5 share one element), a release of one 5, one more at 9, the other 5
+released: the list is `[7 ×1, 9 ×1]` and `minSeq` = 7 -/
+def snapOps : List Snaps.Op := [.acquire 5, .acquire 5, .acquire 7, .release 5, .acquire 9, .release 5]
+example : Snaps.Legal 0 [] snapOps := by simp [snapOps, Snaps.Legal]
+example : Snaps.run [] snapOps = some [⟨7, 1⟩, ⟨9, 1⟩] ∧ Snaps.liveRun [] snapOps = [7, 9]
+    ∧ Snaps.run [] (snapOps.take 3) = some [⟨5, 2⟩, ⟨7, 1⟩] := by decide
+example : ∃ l, Snaps.run [] snapOps = some l ∧ Snaps.minSeq l 12 = 7 := ⟨[⟨7, 1⟩, ⟨9, 1⟩], by decide, by decide⟩
+/-- what the two panics guard against: an acquisition below the back element, a release of a released element -/
+example : Snaps.run [] [.acquire 5, .acquire 4] = none ∧ Snaps.run [] [.acquire 5, .release 5, .release 5] = none := by
+  decide
+
+/-- **The snapshot list never panics in the DB**, and it is the list of the model's live registrations: along every
+execution of the interleaving model, drive the real list by the same steps (`Conc.snapsStep`: `GetSnapshot`, `DB.Get`,
+`DB.NewIterator` acquire the current `db.seq`; their releases give it back) — every reachable state has its list
+(`Joint`), and from a state with its list every step of the model is a non-panicking operation of the list.
+The acquisitions are non-decreasing because `db.seq` only grows (`pub_monotone`; here: every registration is at or
+below `pub`, `cover_invariant`). -/
+theorem snapshot_list_never_panics :
+    (∀ σ, Reachable Cfg.real c σ → ∃ l, Joint c σ l)
+    ∧ (∀ σ l a σ', Joint c σ l → Step Cfg.real c σ a σ' → ∃ l', snapsStep σ l a = some l' ∧ Joint c σ' l') := by
+  refine ⟨fun σ h => joint_of_reachable h, ?_⟩
+  intro σ l a σ' hj hs
+  obtain ⟨l', g1, _, _⟩ := joint_step (inv_reachable hj.reachable) hj.inv.1 hj.inv.2 hs
+  exact ⟨l', g1, Joint.step a hj hs g1⟩
+
+/-- **The model's `minSeq` is the real one.**  For a state with its list: the list represents the live registrations
+(a reference per client snapshot and per running `DB.Get`/iterator), its `minSeq` is the oldest of them (`db.seq` if
+none), `Conc.minSeq` — what the model's `compStart` reads — never exceeds it, and the two are equal whenever every
+running `Snapshot.Get` still has its client snapshot registered (`SnapHeld`: what `snap.mu` guarantees). -/
+theorem minSeq_matches_model {σ : State} {l : Snaps.SList} (h : Joint c σ l) :
+    Snaps.Rep l (liveSeqs σ)
+    ∧ (liveSeqs σ = [] → Snaps.minSeq l σ.pub = σ.pub)
+    ∧ (liveSeqs σ ≠ [] → Snaps.minSeq l σ.pub ∈ liveSeqs σ ∧ ∀ s ∈ liveSeqs σ, Snaps.minSeq l σ.pub ≤ s)
+    ∧ Conc.minSeq σ ≤ Snaps.minSeq l σ.pub
+    ∧ (SnapHeld σ → Snaps.minSeq l σ.pub = Conc.minSeq σ) := by
+  have hr := h.inv.2
+  have hb := (inv_reachable h.reachable).basic
+  exact ⟨hr, (Snaps.rep_minSeq hr σ.pub).1, (Snaps.rep_minSeq hr σ.pub).2, (minSeq_list hb hr).1, (minSeq_list hb hr).2⟩
+
+/-- `exTrace` with its snapshot list: the client snapshot and reader 0 share the element 2, reader 1 holds 4 -/
+theorem exJoint : Joint bytewise exState [⟨2, 2⟩, ⟨4, 1⟩] :=
+  joint_of_runJ exTrace (by decide) Joint.init (by decide)
+example : liveSeqs exState = [2, 2, 4] ∧ Conc.minSeq exState = 2 ∧ Snaps.minSeq [⟨2, 2⟩, ⟨4, 1⟩] exState.pub = 2 := by decide
+theorem exState_snapHeld : SnapHeld exState := by
+  intro i s hp hl
+  have hs : exState.snaps = [(Owner.user 1, 2), (Owner.reader 0, 2), (Owner.reader 1, 4)] := by decide
+  rw [hs] at hp ⊢
+  simp only [List.mem_cons, Prod.mk.injEq, List.not_mem_nil, or_false, Owner.reader.injEq, reduceCtorEq, false_and,
+    false_or] at hp
+  rcases hp with ⟨rfl, rfl⟩ | ⟨rfl, rfl⟩
+  · exact ⟨1, by simp⟩
+  · have hr : (exState.readers[1]?).map (·.live) = some true := by decide
+    cases h1 : exState.readers[1]? with
+    | none => rw [h1] at hr; cases hr
+    | some r =>
+      rw [h1] at hr
+      have := hl r h1
+      simp only [Option.map_some, Option.some.injEq] at hr
+      rw [this] at hr; cases hr
+example : Snaps.minSeq [⟨2, 2⟩, ⟨4, 1⟩] exState.pub = Conc.minSeq exState :=
+  (minSeq_matches_model exJoint).2.2.2.2 exState_snapHeld
+
+/-! ## 8. the reader side of recorded runs -/
+
+open GoLevel.Driver in
+/-- what "the recorded answer agrees with `v`" means -/
+theorem answerOk_spec {ans : String} {val v : Option Bytes} (h : Driver.answerOk ans val v = true) :
+    (ans = "notfound" ∧ v = none) ∨ (ans = "found" ∧ ∃ b, v = some b ∧ ∀ b', val = some b' → b' = b) := by
+  unfold Driver.answerOk at h
+  split at h
+  · rename_i h1
+    exact Or.inl ⟨h1, by cases v <;> simp_all⟩
+  · split at h
+    · rename_i h2
+      refine Or.inr ⟨h2, ?_⟩
+      cases val with
+      | none =>
+        cases v with
+        | none => simp at h
+        | some b => exact ⟨b, rfl, fun _ hh => by cases hh⟩
+      | some b0 =>
+        simp only [beq_iff_eq] at h
+        exact ⟨b0, h, fun b' hh => by cases hh; rfl⟩
+    · cases h
+
+open GoLevel.Driver in
+/-- **Reader-side trace soundness.**  Feed the validator (`gldriver`'s `conc` protocol, `Driver.feed`) any sequence of
+lines from a fresh state.  Whatever it accepted, its state is a reachable state of the interleaving model; and if it
+answered `ok` to a line `rget <rid> <key> <found|notfound> <value>` — the recorded answer of a `Get` / `Snapshot.Get`
+/ iterator of the real DB, whose snapshot acquisition, `getMems`, `version()` and release were replayed as the
+reader steps `rSeq`/`rSeqSnap`, `rMems`, `rVer`, `rRelease` of model reader `rid` — then the recorded answer is
+**the value of the key in the history as of the reader's sequence number** `s` (`view hist k s`, `s ≤ db.seq`): of the
+history at the end of the run (the same as at any moment since the read, `read_linearizable`).  In words: every
+sampled read of the real DB is checked to be linearizable at its `acquireSnapshot`. -/
+theorem reader_trace_sound (pre post : List (List String)) (rid key ans vid : String)
+    (hok : (feed {} (pre ++ [["rget", rid, key, ans, vid]] ++ post)).2[pre.length]? = some "ok")
+    (hpost : ∀ l ∈ post, l.head? ≠ some "reset") :
+    Reachable Cfg.real bytewise (feed {} (pre ++ [["rget", rid, key, ans, vid]] ++ post)).1.σ ∧
+    ∃ (i : Nat) (k : Bytes) (r : Reader) (s : Nat) (val : Option Bytes),
+      natOf rid = some i ∧ fromHex key = some k ∧ parseVal vid = some val ∧
+      (feed {} (pre ++ [["rget", rid, key, ans, vid]] ++ post)).1.σ.readers[i]? = some r ∧ r.seq? = some s ∧
+      s ≤ (feed {} (pre ++ [["rget", rid, key, ans, vid]] ++ post)).1.σ.pub ∧
+      ((ans = "notfound" ∧
+          view bytewise (feed {} (pre ++ [["rget", rid, key, ans, vid]] ++ post)).1.σ.hist k s = none) ∨
+       (ans = "found" ∧ ∃ b,
+          view bytewise (feed {} (pre ++ [["rget", rid, key, ans, vid]] ++ post)).1.σ.hist k s = some b ∧
+          ∀ b', val = some b' → b' = b)) := by
+  have hgood := feed_good (pre ++ [["rget", rid, key, ans, vid]] ++ post) good_init
+  refine ⟨hgood.reachable, ?_⟩
+  have hg1 : Good (feed {} pre).1 := feed_good pre good_init
+  rw [List.append_assoc, feed_append] at hok ⊢
+  simp only at hok ⊢
+  rw [List.getElem?_append_right (by rw [feed_length]; exact Nat.le_refl _), feed_length, Nat.sub_self] at hok
+  -- the `rget` line itself
+  simp only [List.singleton_append, feed] at hok ⊢
+  cases hh : handleConc (feed {} pre).1 ["rget", rid, key, ans, vid] with
+  | none =>
+    rw [hh] at hok
+    simp only [List.getElem?_cons_zero, Option.some.injEq] at hok
+    exact absurd hok (by decide)
+  | some p =>
+    obtain ⟨st2, out⟩ := p
+    rw [hh] at hok
+    simp only [List.getElem?_cons_zero, Option.some.injEq] at hok
+    subst hok
+    show ∃ i k r s val, _ ∧ _ ∧ _ ∧ (feed st2 post).1.σ.readers[i]? = some r ∧ _ ∧ s ≤ (feed st2 post).1.σ.pub ∧
+      ((_ ∧ view bytewise (feed st2 post).1.σ.hist k s = none) ∨
+       (_ ∧ ∃ b, view bytewise (feed st2 post).1.σ.hist k s = some b ∧ _))
+    obtain ⟨i, k, r, s, val, v, e1, e2, e3, e4, e5, e6, e7, _, e9⟩ := rget_sound hg1 hh
+    have hg2 : Good st2 := handleConc_good hg1 hh
+    have hsteps := feed_steps post hg2 hpost
+    obtain ⟨r', f1, f2⟩ := steps_reader_keep (inv_reachable hg2.reachable).basic hsteps i r e4
+    have hv := e9 _ hsteps
+    have hle := steps_pub_le (inv_reachable hg2.reachable).basic hsteps
+    refine ⟨i, k, r', s, val, e1, e2, e3, f1, (f2.seqKeep s e5).1, Nat.le_trans e6 hle, ?_⟩
+    rcases answerOk_spec e7 with ⟨a1, a2⟩ | ⟨a1, b, a2, a3⟩
+    · exact Or.inl ⟨a1, by rw [← hv, a2]⟩
+    · exact Or.inr ⟨a1, b, by rw [← hv, a2], a3⟩
+
+/-- a recorded run: a group of two puts, a client snapshot, a `Get` (reader 0) that acquires at 2 and pins its buffers
+before a deletion is published and the buffer is rotated, flushed (with a compaction whose `minSeq` 2 is the front of
+the snapshot list) and dropped; its answer for key `61`; then a second `Get` at 3 that sees the deletion, a `Has`, a
+`Snapshot.Get` at the client snapshot's position, the release of the snapshot and a compaction at `minSeq` 3 -/
+def exLines : List (List String) :=
+  [["reset", "0"], ["insert", "1", "2", "p61:0a", "p62:0b"], ["publish", "2"], ["snap", "1", "2"],
+   ["racq", "0", "2"], ["rmems", "0", "0"], ["insert", "3", "1", "d61"], ["publish", "3"], ["rotate"],
+   ["rver", "0"], ["rrel", "0"], ["flushinstall"], ["minseq", "2"], ["compact", "2"], ["drop"]]
+def exPost : List (List String) :=
+  [["racq", "1", "3"], ["rmems", "1", "0"], ["rver", "1"], ["rrel", "1"], ["rget", "1", "61", "notfound", "-"],
+   ["rget", "1", "62", "found", "*"], ["rget", "1", "62", "found", "0c"], ["racqs", "2", "1", "2"], ["rmems", "2"],
+   ["rver", "2"], ["rrel", "2"], ["rget", "2", "61", "found", "0a"], ["snaprel", "1"], ["compact", "3"]]
+
+set_option maxRecDepth 100000 in
+/-- everything is accepted except the wrong value `0c` for key `62` -/
+example : (Driver.feed {} (exLines ++ [["rget", "0", "61", "found", "0a"]] ++ exPost)).2 =
+    List.replicate 22 "ok" ++ ["illegal read-62-real-found-0c-model-found-0b"] ++ List.replicate 7 "ok" := by decide
+
+set_option maxRecDepth 100000 in
+/-- the first `rget` of that run: reader 0 read key `61` = `0a` at position 2, although the deletion at 3 was
+published (and flushed) before it looked -/
+example : ∃ r, (Driver.feed {} (exLines ++ [["rget", "0", "61", "found", "0a"]] ++ exPost)).1.σ.readers[0]? = some r
+    ∧ r.seq? = some 2
+    ∧ view bytewise (Driver.feed {} (exLines ++ [["rget", "0", "61", "found", "0a"]] ++ exPost)).1.σ.hist [0x61] 2
+        = some [0x0a] := by
+  obtain ⟨_, i, k, r, s, val, h1, h2, h3, h4, h5, _, h7⟩ :=
+    reader_trace_sound exLines exPost "0" "61" "found" "0a" (by decide) (by decide)
+  have e1 : i = 0 := by
+    have : Driver.natOf "0" = some 0 := by decide
+    rw [this] at h1; exact (Option.some.inj h1).symm
+  have e2 : k = [0x61] := by
+    have : fromHex "61" = some [0x61] := by decide
+    rw [this] at h2; exact (Option.some.inj h2).symm
+  subst e1; subst e2
+  have e3 : s = 2 := by
+    have : ((Driver.feed {} (exLines ++ [["rget", "0", "61", "found", "0a"]] ++ exPost)).1.σ.readers[0]?).bind (·.seq?)
+        = some 2 := by decide
+    rw [h4] at this
+    simp only [Option.bind_some] at this
+    rw [h5] at this; exact Option.some.inj this
+  subst e3
+  refine ⟨r, h4, h5, ?_⟩
+  rcases h7 with ⟨hh, _⟩ | ⟨_, b, hb, hv⟩
+  · exact absurd hh (by decide)
+  · have : Driver.parseVal "0a" = some (some [0x0a]) := by decide
+    rw [this] at h3
+    have := hv [0x0a] (Option.some.inj h3).symm
+    rw [hb, ← this]
+
 def theorems : List String :=
   ["GoLevel.C05.code_is_real", "GoLevel.C05.pub_monotone", "GoLevel.C05.published_in_hist", "GoLevel.C05.cover_invariant",
    "GoLevel.C05.floor_monotone", "GoLevel.C05.reader_seq_is_pub", "GoLevel.C05.reader_triple_fixed",
@@ -613,6 +817,8 @@ def theorems : List String :=
    "GoLevel.C05.no_wrong_read", "GoLevel.C05.dropEarly_breaks", "GoLevel.C05.verFirst_breaks",
    "GoLevel.C05.trOverFrozen_breaks", "GoLevel.C05.trOverFrozen_stale_read",
    "GoLevel.C05.publication_is_one_step", "GoLevel.C05.batch_atomic", "GoLevel.C05.real_time_order",
-   "GoLevel.C05.writes_ordered", "GoLevel.C05.snapshot_stable", "GoLevel.C05.iterator_stable"]
+   "GoLevel.C05.writes_ordered", "GoLevel.C05.snapshot_stable", "GoLevel.C05.iterator_stable",
+   "GoLevel.C05.minSeq_is_oldest_live", "GoLevel.C05.snapshot_list_never_panics", "GoLevel.C05.minSeq_matches_model",
+   "GoLevel.C05.reader_trace_sound"]
 
 end GoLevel.C05
